@@ -601,7 +601,16 @@ def install(tap, run):
             feat = calls[-1]["X"]
             want = np.transpose([ds.coordinates[0], ds.coordinates[1]])
             if feat.shape != want.shape or not np.array_equal(feat, want):
-                run.count("note:cv_given_another_feature_matrix")  # which X the splitter sees is C11's business
+                permuted = feat.shape == want.shape and np.array_equal(feat[np.lexsort(feat.T)], want[np.lexsort(want.T)])
+                if permuted:
+                    run.evaluated("cv_sees_rows_in_split_order")
+                    run.violation("cv_sees_rows_in_split_order", "the cross-validator was shown the points in another order than the C ravel "
+                                  "its split indices are applied to (layout-dependent flattening)", {"X": feat, "expected": want,
+                                  "coordinates": list(a["coordinates"])}, key="cv-feature-order")
+                    return
+                run.count("note:cv_given_another_feature_matrix")  # which columns the splitter sees is C11's business
+            else:
+                run.evaluated("cv_sees_rows_in_split_order")
             splits = calls[-1]["splits"]
         else:
             splits = None
